@@ -29,6 +29,10 @@ CHECKS = {
          "translation_validation",
          "Validates the one program the property is about: the checked-in generated container against its YAML sources, item by item (meta, parameters, every service's creation symbol, ordered arguments by kind and payload, fields, calls, tags, scope, todo, decorators, getters and their types). A disagreement is reported with both sides. The generator itself is not run, so byte identity of a regenerated file and alias numbering are not decided.",
          "DESIGN.md §4 C19"),
+ "C16": ("resolved chain walk: flag literal -> variable -> payload field -> Active() argument -> getter -> service id (wiring model) -> validator value; SSA control-dependence of every validator error site on a failed comma-ok lookup; writer sets of the switch; purity (no store through the argument)",
+         "other",
+         "Decides each link of the chain that makes a flag suppress exactly one class, for all configurations: one negation, unconditional and independent switches, the getter's service holds exactly the matching validator, that validator can only report failed lookups of its own dependency field, no non-switchable validator reports a missing name, an inactive step is a no-op returning nil, nothing else is switchable, validators do not mutate the output. Output identity under flags follows; it is not executed.",
+         "DESIGN.md §4 C16"),
 }
 NOT_YET = "check not built yet in this session (design in DESIGN.md §4); will be claimed once its rules run on /repo"
 
